@@ -133,7 +133,7 @@ pub fn gen_plan(hseed: u64) -> Plan {
     let workers = r.pick(&[1usize, 2, 4]);
     let graceful = r.chance(72);
     // a worker that stays unresponsive for much longer than the timeout: the coordinator has to give up on it
-    let stuck = graceful && r.chance(8);
+    let stuck = graceful && r.chance(10);
     let has_blocker = !stuck && r.chance(55);
     let timeout_ms = graceful.then(|| {
         if stuck {
